@@ -341,7 +341,8 @@ def main():
      "checks": [],
      "notes": "See DESIGN.md. Genuine defects repaired in /repo by 'fix:' commits: 3779468 (F1, C15), 90a667a "
               "(F2, C01/C06), ab26aa5 (F3, C12), 9d605d2 (F4, C06), 72f5b5b (F6, C09), 9d9dc18 (F9, C12), 30ffe8c (F10, C03), "
-              "b10dabe (F11, C04), a2363a7 (F12, C04), bc7512c (F13, C02/C12); known, not repaired: F5 (C07 shutdown hang), F7 (C17 borrowed loop); see known_findings.json.",
+              "b10dabe (F11, C04), a2363a7 (F12, C04), bc7512c (F13, C02/C12), a1c15da (F14, C15/C08), 246fb33 (F15, C20), df35f99 (F16, C12), fbcbea6 (F17, C04), "
+              "acc6cdb (F18, C10), 31f6c48 (F19, C07), 0d71334 (F20, C16), dfc1e75 (F21, C02/C13); known, not repaired: F5 (C07 shutdown hang), F7 (C17 borrowed loop); see known_findings.json.",
      "not_applicable": [],
     }
     for pid in sorted(CHECKS):
